@@ -12,6 +12,15 @@ from ._errors import ExpressionError, TokenError
 from ._tokenstream import Token, TokenStream, TokenType
 
 
+def _index_error(index: int) -> IndexError:
+    # CPython refuses to print an int of more than sys.get_int_max_str_digits() digits: the index
+    # is still out of range, and that is what has to be reported.
+    try:
+        return IndexError(f"index {index} is out of range")
+    except ValueError:
+        return IndexError("index is out of range")
+
+
 class IntRangeExpr(Sized):
     """An Int Range Expression is a set of integer values represented as a sorted list of IntRange objects."""
 
@@ -111,7 +120,7 @@ class IntRangeExpr(Sized):
             index = len(self) + index
 
         if not (0 <= index < self._length):
-            raise IndexError(f"index {index} is out of range")
+            raise _index_error(index)
 
         # gets the index for insertion position
         # (ie. we receive the index to the range that contains the item we're looking for)
@@ -213,7 +222,7 @@ class IntRange(Sized):
 
     def __getitem__(self, index: int) -> int:
         if index >= len(self):
-            raise IndexError(f"index {index} is out of range")
+            raise _index_error(index)
         return self._range[index]
 
     @property
